@@ -6,7 +6,7 @@
 // that topic, byte for byte (prefix-related topics, the empty topic, 0x01 / 0xFF next to the delimiter)
 pub proof fn lemma_prefix_exact(c0: u128, t0: Seq<u8>, c: u128, t: Seq<u8>, i: u128)
     requires nul_free(t0), nul_free(t),
-    ensures starts_with(topic_key(c, t, i), topic_prefix(c0, t0)) <==> (c == c0 && t == t0)
+    ensures starts_with(topic_key(c, t, i), topic_prefix(c0, t0)) <==> (c == c0 && t == t0) //# lemma.L1.prefix_exact
 {
     broadcast use lemma_be16_len;
     let k = topic_key(c, t, i);
@@ -52,7 +52,7 @@ pub proof fn lemma_id_from_topic_key(c: u128, t: Seq<u8>, i: u128)
 
 // L4: inside one (context, topic) the index order is the id order
 pub proof fn lemma_topic_key_order(c: u128, t: Seq<u8>, i: u128, j: u128)
-    ensures lex_lt(topic_key(c, t, i), topic_key(c, t, j)) == (i < j)
+    ensures lex_lt(topic_key(c, t, i), topic_key(c, t, j)) == (i < j) //# lemma.L4.topic_key_order
 {
     broadcast use lemma_be16_len;
     let p = be16(c) + t + seq![0u8];
@@ -72,7 +72,7 @@ pub open spec fn in_range(k: Seq<u8>, r: (Bound<Vec<u8>>, Bound<Vec<u8>>)) -> bo
 // context with an id strictly after last_id -- numerically adjacent contexts included
 pub proof fn lemma_ctx_scan_exact(ctx: u128, last: Option<u128>, r: (Bound<Vec<u8>>, Bound<Vec<u8>>), c2: u128, i: u128)
     requires ctx_bounds_post(ctx, last, r), ctx < u128::MAX,
-    ensures in_range(ctx_key(c2, i), r) <==> (c2 == ctx && (last matches Some(l) ==> i > l))
+    ensures in_range(ctx_key(c2, i), r) <==> (c2 == ctx && (last matches Some(l) ==> i > l)) //# lemma.L5.ctx_scan_exact
 {
     broadcast use lemma_be16_len;
     let k = ctx_key(c2, i);
@@ -114,7 +114,7 @@ pub proof fn lemma_ctx_key_order(c: u128, i: u128, j: u128)
 // L6: the all-contexts bounds select exactly the primary keys with id strictly after last_id
 pub proof fn lemma_all_scan_exact(last: Option<u128>, r: (Bound<Vec<u8>>, Bound<Vec<u8>>), i: u128)
     requires all_bounds_post(last, r),
-    ensures in_range(be16(i), r) <==> (last matches Some(l) ==> i > l)
+    ensures in_range(be16(i), r) <==> (last matches Some(l) ==> i > l) //# lemma.L6.all_scan_exact
 {
     match last {
         None => {}
